@@ -8,6 +8,8 @@ var (
 
 type Topic []byte
 
+// Next splits off the first level. The returned remainder is nil once the last level has
+// been returned; an empty, non-nil remainder means one more (empty) level follows, as in "a/".
 func (t Topic) Next() (Topic, string) {
 	end := bytes.IndexByte(t, SEP)
 	if end < 0 {
